@@ -117,8 +117,12 @@ def check_case(ctx, case, extra_orders):
             if len(case["params"]) >= 2:
                 variants.append((orders[0], 1 + (len(vec) % (len(case["params"]) - 1))))  # base class + subclass
             variants.append((orders[0], "plain-subclass"))
+            variants.append((orders[0], "init-false" + ["", "+frozen", "+slots", "+frozen+slots"][len(vec) % 4]))
             for order, split in variants:
-                D = gc.build_plain_subclass_dataclass(case, order, ck) if split == "plain-subclass" else gc.build_dataclass(case, order, ck, split)
+                if isinstance(split, str) and split.startswith("init-false"):
+                    D = gc.build_init_false_dataclass(case, order, ck, tuple(o for o in split.split("+")[1:]))
+                else:
+                    D = gc.build_plain_subclass_dataclass(case, order, ck) if split == "plain-subclass" else gc.build_dataclass(case, order, ck, split)
                 for style in ("pos", "kw"):
                     args, kwargs = gc.call_args(case, order, style, with_int=False)
                     try:
@@ -131,7 +135,7 @@ def check_case(ctx, case, extra_orders):
                     vec[(tuple(order), ck, f"dataclass{'' if split is None else '-inherit' + str(split)}", style)] = got
                     if (got == "ok") != refp or (got != "ok" and got != "TypeCheckError"):
                         raise Violation("dataclass", dict(case, variant=[order, ck, "dataclass", style]),
-                                        f"dataclass{'' if split is None else ' (jaxtyped base with ' + str(split) + ' fields + jaxtyped subclass)'} __init__ {got} but reference says {'accept' if refp else 'reject'}: {[(p['name'], gc.spec_of(p), p['shape']) for p in case['params']]}")
+                                        f"dataclass{'' if split is None else (' (' + split + ')' if isinstance(split, str) else ' (jaxtyped base with ' + str(split) + ' fields + jaxtyped subclass)')} __init__ {got} but reference says {'accept' if refp else 'reject'}: {[(p['name'], gc.spec_of(p), p['shape']) for p in case['params']]}")
     ctx.extra["variants_executed"] = ctx.extra.get("variants_executed", 0) + len(vec)
     ctx.note(
         [[(gc.spec_of(p), p["shape"]) for p in case["params"]], (gc.spec_of(case["ret"]), case["ret"]["shape"]) if case["ret"] else None],
